@@ -11,31 +11,38 @@ import (
 
 const jsonSerializer = "json"
 
-var mediaTypeNames = map[*regexp.Regexp]string{
-	regexp.MustCompile("application/.*json"):                jsonSerializer,
-	regexp.MustCompile("application/.*yaml"):                "yaml",
-	regexp.MustCompile("application/.*protobuf"):            "protobuf",
-	regexp.MustCompile("application/.*capnproto"):           "capnproto",
-	regexp.MustCompile("application/.*thrift"):              "thrift",
-	regexp.MustCompile("(?:application|text)/.*xml"):        "xml",
-	regexp.MustCompile("text/.*markdown"):                   "markdown",
-	regexp.MustCompile("text/.*html"):                       "html",
-	regexp.MustCompile("text/.*csv"):                        "csv",
-	regexp.MustCompile("text/.*tsv"):                        "tsv",
-	regexp.MustCompile("text/.*javascript"):                 "js",
-	regexp.MustCompile("text/.*css"):                        "css",
-	regexp.MustCompile("text/.*plain"):                      "txt",
-	regexp.MustCompile("application/.*octet-stream"):        "bin",
-	regexp.MustCompile("application/.*tar"):                 "tar",
-	regexp.MustCompile("application/.*gzip"):                "gzip",
-	regexp.MustCompile("application/.*gz"):                  "gzip",
-	regexp.MustCompile("application/.*raw-stream"):          "bin",
-	regexp.MustCompile("application/x-www-form-urlencoded"): "urlform",
-	regexp.MustCompile("application/javascript"):            "txt",
-	regexp.MustCompile("multipart/form-data"):               "multipartform",
-	regexp.MustCompile("image/.*"):                          "bin",
-	regexp.MustCompile("audio/.*"):                          "bin",
-	regexp.MustCompile("application/pdf"):                   "bin",
+// mediaTypeNames maps well-known mime types to a serializer name.
+//
+// The list is ordered: the first matching pattern wins (patterns overlap, e.g.
+// "application/x-tar+gzip" matches both the tar and the gzip patterns).
+var mediaTypeNames = []struct {
+	rex  *regexp.Regexp
+	name string
+}{
+	{regexp.MustCompile("application/.*json"), jsonSerializer},
+	{regexp.MustCompile("application/.*yaml"), "yaml"},
+	{regexp.MustCompile("application/.*protobuf"), "protobuf"},
+	{regexp.MustCompile("application/.*capnproto"), "capnproto"},
+	{regexp.MustCompile("application/.*thrift"), "thrift"},
+	{regexp.MustCompile("(?:application|text)/.*xml"), "xml"},
+	{regexp.MustCompile("text/.*markdown"), "markdown"},
+	{regexp.MustCompile("text/.*html"), "html"},
+	{regexp.MustCompile("text/.*csv"), "csv"},
+	{regexp.MustCompile("text/.*tsv"), "tsv"},
+	{regexp.MustCompile("text/.*javascript"), "js"},
+	{regexp.MustCompile("text/.*css"), "css"},
+	{regexp.MustCompile("text/.*plain"), "txt"},
+	{regexp.MustCompile("application/.*octet-stream"), "bin"},
+	{regexp.MustCompile("application/.*tar"), "tar"},
+	{regexp.MustCompile("application/.*gzip"), "gzip"},
+	{regexp.MustCompile("application/.*gz"), "gzip"},
+	{regexp.MustCompile("application/.*raw-stream"), "bin"},
+	{regexp.MustCompile("application/x-www-form-urlencoded"), "urlform"},
+	{regexp.MustCompile("application/javascript"), "txt"},
+	{regexp.MustCompile("multipart/form-data"), "multipartform"},
+	{regexp.MustCompile("image/.*"), "bin"},
+	{regexp.MustCompile("audio/.*"), "bin"},
+	{regexp.MustCompile("application/pdf"), "bin"},
 }
 
 var knownProducers = map[string]string{
@@ -59,9 +66,9 @@ var knownConsumers = map[string]string{
 }
 
 func wellKnownMime(tn string) (string, bool) {
-	for k, v := range mediaTypeNames {
-		if k.MatchString(tn) {
-			return v, true
+	for _, m := range mediaTypeNames {
+		if m.rex.MatchString(tn) {
+			return m.name, true
 		}
 	}
 	return "", false
